@@ -664,6 +664,19 @@ class FA:
         for k in [k for k, (_, ns) in st.known.items() if name in ns and k != keep]:
             del st.known[k]
 
+    def forget_aliases(self, st, cont, keep=None):
+        """facts about elements read through a name that may alias the mutated object are dropped"""
+        for k, (_, ns) in list(st.known.items()):
+            if k == keep:
+                continue
+            for n in ns:
+                a = st.env.get(n)
+                if a is None:
+                    continue
+                if (a.cells & cont.cells) or (a.lvl == SHARED and cont.lvl == SHARED and {p for p, _ in a.org} & {p for p, _ in cont.org}):
+                    st.known.pop(k, None)
+                    break
+
     def capture(self, st, cont, v, leafstore=False):
         """v is stored into the object cont"""
         if cont.lvl >= SHALLOW:
@@ -1276,6 +1289,7 @@ class FA:
             for v in stored:
                 self.capture(st, recv, v)
             b = _base_name(recv_expr) if recv_expr is not None else None
+            self.forget_aliases(st, recv)
             if b:
                 self.forget(st, b)
                 if recv_expr is not None and isinstance(recv_expr, ast.Name) and recv_expr.id in st.env and stored:
@@ -1549,6 +1563,7 @@ class FA:
         b = _base_name(tg)
         if b:
             self.forget(st, b, keep=None)
+        self.forget_aliases(st, cont)
         if _simple(tg):
             st.known[txt] = (v.but(const=None), _names(tg))
         if isinstance(tg.value, ast.Name) and tg.value.id in st.env:
@@ -1912,3 +1927,39 @@ def post_all(ctx, results, replay=None):
             ctx.undecided.append((d['name'], d['detail']))
     ctx.trust('engine: the ownership lattice (DEEP > BRANCH-DEEP > SHALLOW > SHARED), its transfer functions and the branch-copy promotion rule of pyvc/own.py')
     return n
+
+
+# ====================================================================================================== the table / mapping methods named in C01, C02, C06, C11, C16
+_D, _A = '_dictable', '_dictattr'
+TABLE_FUNCS = {
+    'C01': [(_D, 'dictable.' + m, {}) for m in ('__getitem__', '__iter__', '__len__', 'get', 'do', 'concat', '__add__', 'sort', 'if_none', 'apply', 'inc', 'exc')]
+           + [(_D, 'dictable.__setitem__', ['top(self)']), (_D, 'dictable.update', ['top(self)']), (_D, 'dictable.__init__', ['top(self)']),
+              (_D, 'dict_concat', {}), ('_dict', 'Dict.__call__', {}), ('_dict', 'Dict.do', {}), (_A, 'dictattr.relabel', {})],
+    'C02': [(_D, 'dictable.join', {}), (_D, 'dictable.xor', {}), (_D, 'dictable._listby', {})],
+    'C06': [(_D, 'dictable.inc', {}), (_D, 'dictable.exc', {}), (_D, 'dictable.one_or_none', {}), (_D, 'dictable.__getattr__', {})],
+    'C11': [(_D, 'dictable.' + m, {}) for m in ('listby', 'unlist', 'groupby', 'ungroup', 'xyz', 'unpivot')],
+    'C16': [(_A, 'dictattr.' + m, {}) for m in ('__sub__', '__and__', '__add__', '__getitem__', '__or__', 'relabel', 'keys', 'values', '__truediv__', 'copy')]
+           + [('_dict', 'Dict.__call__', {}), ('_dict', 'Dict.apply', {}), ('_dict', 'Dict.__getitem__', {})]
+           + [('_ulist', 'ulist.' + m, {}) for m in ('__add__', '__sub__', '__and__', '__init__')],
+}
+# path preconditions of that report: no pandas / numpy / file-path values, callbacks are plain functions (not pyg wrappers); the excel loader is cut off
+TABLE_NEVER = ['wrapper', 'Path', 'pd.io.excel.ExcelFile', 'pd.DataFrame', 'pd.Series', 'np.ndarray']
+TABLE_CONTRACTS = {'_dictable:dictable.read_excel': dict(modifies=[], result=('SHALLOW', []))}
+
+
+def table_report(pid):
+    """frame_report over the methods named in property pid (C01, C02, C06, C11, C16) under the stated path preconditions"""
+    return frame_report(TABLE_FUNCS[pid], contracts=TABLE_CONTRACTS, never_types=TABLE_NEVER)
+
+
+if __name__ == '__main__':
+    import sys, time
+    for pid in (sys.argv[1:] or sorted(TABLE_FUNCS)):
+        t0 = time.time()
+        rs = table_report(pid)
+        ob = [r for r in rs if r['kind'] in ('frame', 'linearity')]
+        print('==== %s: %d obligations, %d failed, %.1fs' % (pid, len(ob), sum(not r['ok'] for r in ob), time.time() - t0))
+        for r in rs:
+            if not r['ok']:
+                print('  FAIL %s [%s] %s' % (r['name'], r['where'], r['detail'][:300]))
+        print('  assumed: ' + '; '.join(sorted({r['detail'][:60] for r in rs if r['kind'] == 'assumed'}))[:900])
